@@ -172,6 +172,15 @@ class DefaultFormatter(BaseFormatter):
             Formatted comment string
         """
 
+        # Line breaks or the closing delimiter inside the text would end
+        # the comment early and the remaining text would be executed
+
+        text = " ".join(text.splitlines())
+        end_symbols = self._comment_template.partition("{}")[2].strip()
+
+        if end_symbols:
+            text = text.replace(end_symbols, " ")
+
         return self._comment_template.format(text)
 
     @typechecked
